@@ -489,7 +489,10 @@ def rules(tier):
             # C13-da: the guesser's terminal loader strips every field - terminals with leading/trailing blanks are loaded without them, the scorer keeps them
             ('C13.R22', _shared_rule('c07', 'r3_record_layout')),
             # C13-eb: child probability scaled from the parent's - ties between parents are no longer exact
-            ('C13.R23', _shared_rule('c01', 'r4_prob_pt_coupling'))]
+            ('C13.R23', _shared_rule('c01', 'r4_prob_pt_coupling')),
+            # C13-ga: the context detector matches ignoring case and reports the list entry, not the text of the section
+            ('C13.R24', _shared_rule('c03', 'r9_counted_value_is_segment')),
+            ('C13.R25', _shared_rule('plumbing', 'loader_prob_verbatim'))]
 
 
 META = {
